@@ -470,8 +470,8 @@ pub async fn gossip_burst_then_shutdown(burst: usize, slow: bool, out: &mut ScOu
 /// later scheduled for deletion (half the dead-node grace period) and finally forgotten. Before every round the
 /// harness reads the node's live / dead / known sets; the SYN destinations of that round (scripted transport) must
 /// obey the statement for exactly those sets.
-pub async fn pools_scenario(nl: usize, nd: usize, grace_s: u64, out: &mut ScOut) {
-    let what = format!("server pools: {nl} heartbeating peers, {nd} peers silent after 5 s, dead-node grace {grace_s} s");
+pub async fn pools_scenario(nl: usize, nd: usize, grace_s: u64, seed_is_member: bool, out: &mut ScOut) {
+    let what = format!("server pools: {nl} heartbeating peers, {nd} peers silent after 5 s{}, dead-node grace {grace_s} s", if seed_is_member { " (the first of them IS the seed: a member at the seed's address)" } else { "" });
     let seed_addr = addr(30_001);
     let self_addr = addr(30_000);
     let shared = Arc::new(Mutex::new(Shared { mode: 0, sends: vec![], t0: Some(Instant::now()), delay: None }));
@@ -483,6 +483,8 @@ pub async fn pools_scenario(nl: usize, nd: usize, grace_s: u64, out: &mut ScOut)
         // one seed is given by name: the seed set is then re-resolved and re-published every 60 s
         cfg.seed_nodes.push(self_addr.to_string());
         cfg.seed_nodes.push("localhost:30001".to_string());
+        // ... and the node binds the wildcard address while advertising 127.0.0.1 (bind and advertised address differ)
+        cfg.listen_addr = "0.0.0.0:30000".parse().unwrap();
     }
     if (nl + nd) % 4 == 2 {
         // a seed given by a name that does not resolve next to the literal one: the periodic refresh must keep the literal
@@ -501,7 +503,7 @@ pub async fn pools_scenario(nl: usize, nd: usize, grace_s: u64, out: &mut ScOut)
         }
     };
     let lives: Vec<WId> = (0..nl).map(|i| WId { node_id: format!("live{i}"), generation: 0, addr: addr(30_010 + i as u16) }).collect();
-    let deads: Vec<WId> = (0..nd).map(|i| WId { node_id: format!("dead{i}"), generation: 0, addr: addr(30_020 + i as u16) }).collect();
+    let deads: Vec<WId> = (0..nd).map(|i| WId { node_id: format!("dead{i}"), generation: 0, addr: if seed_is_member && i == 0 { seed_addr } else { addr(30_020 + i as u16) } }).collect();
     tokio::time::sleep(Duration::from_millis(500)).await;
     let horizon = grace_s + 45;
     let mut hbv = 1u64;
@@ -560,7 +562,8 @@ pub async fn pools_scenario(nl: usize, nd: usize, grace_s: u64, out: &mut ScOut)
             out.findings.push(Finding::new(&["C17"], "pools.too_many", format!("{ctx}: more than 3 + 1 + 1 targets")));
         }
         if !live.is_empty() {
-            if dests.iter().filter(|d| dead.contains(d)).count() > 1 {
+            // (a dead member at a seed's address may also be the seed pick: only non-seed addresses are counted)
+            if dests.iter().filter(|d| dead.contains(d) && !seeds.contains(d)).count() > 1 {
                 out.findings.push(Finding::new(&["C17"], "pools.too_many_dead", format!("{ctx}: more than one dead peer")));
             }
         } else if !seeds.is_empty() && !dests.iter().any(|d| seeds.contains(d)) {
@@ -581,20 +584,26 @@ pub async fn pools_scenario(nl: usize, nd: usize, grace_s: u64, out: &mut ScOut)
 
 /// The server-level part of C17 (skipped under Miri: it needs the tokio time driver and is covered natively).
 pub fn pools_part(args: &Args) -> (Vec<Finding>, Counters) {
-    let mut jobs: Vec<(usize, usize, u64)> = vec![];
+    let mut jobs: Vec<(usize, usize, u64, bool)> = vec![];
     let (maxl, maxd) = args.tier.pick((2usize, 3usize), (4usize, 5usize));
     for nl in 0..=maxl {
         for nd in 0..=maxd {
             for g in args.tier.pick(vec![40u64], vec![20, 40, 90]) {
-                jobs.push((nl, nd, g));
+                jobs.push((nl, nd, g, false));
             }
         }
     }
+    // the seed itself is a member that died: six silent peers (more than the three regular slots), no live one
+    for g in args.tier.pick(vec![40u64], vec![20, 40, 90]) {
+        jobs.push((0, 6, g, true));
+        jobs.push((0, 7, g, true));
+        jobs.push((1, 6, g, true));
+    }
     let res = par_run(jobs.len() as u64, args.threads, |i| {
         let rt = paused_rt();
-        let (nl, nd, g) = jobs[i as usize];
+        let (nl, nd, g, sm) = jobs[i as usize];
         let mut out = ScOut { findings: vec![], c: Counters::default() };
-        if let Err(p) = catch(|| rt.block_on(pools_scenario(nl, nd, g, &mut out))) {
+        if let Err(p) = catch(|| rt.block_on(pools_scenario(nl, nd, g, sm, &mut out))) {
             out.findings.push(Finding::new(&["harness"], "harness.panic", p));
         }
         Some(out)
